@@ -767,7 +767,24 @@ func c07Corpus(prop string) func() []any {
 		// TARGET cursor)
 		finalTarget := &c07Input{Prop: prop, First: 2, Kept: 5, Bundle: 4, Root: lag(2), Arrival: arr2, A0: 12, HubStart: 6, Merged: 8,
 			Mode: "target", Start: 4, Filter: "final", KSel: 5, Shape: "corpus/final-only-target-start-below-cursor"}
-		return []any{joinOnFork, finalAboveLib, finalCursorAhead, finalTarget, targetJoinOnFork8, targetJoinOnFork13}
+		// target-cursor mode with the cursor block stored OFF the hub's current chain (the branch of blocksThroughCursor that
+		// answers with the cursor's own branch and then as blocksFromCursor does; theorem c07_seamless_target): the hub holds
+		// 6..14 and the fork 13 <- 114 <- 115 (head 115, LIB 13, lowest 8); the files hold 2..9; target cursor {New 14}
+		// (ksel 11) resp. {Undo 14} (ksel 12); the join at 8 brings 8..14, Undo 14, New 114, New 115 (resp. 8..13, New 114,
+		// New 115); after 12 events the canonical 15..24 arrive and the hub reorganises back
+		var arr4 []fkBlock
+		for n := uint64(3); n <= 14; n++ {
+			arr4 = append(arr4, b(n))
+		}
+		arr4 = append(arr4, fkBlock{ID: 114, Num: 14, Parent: 13, Lib: 12}, fkBlock{ID: 115, Num: 15, Parent: 114, Lib: 13})
+		for n := uint64(15); n <= 24; n++ {
+			arr4 = append(arr4, b(n))
+		}
+		targetOffChainNew := &c07Input{Prop: prop, First: 2, Kept: 5, Bundle: 10, Root: b(2), Arrival: arr4, A0: 14, HubStart: 6, Merged: 10,
+			Mode: "target", Start: 5, KSel: 11, Filter: "default", Pauses: []c07Pause{{After: 12, Push: 10}}, Shape: "corpus/target-cursor-off-chain"}
+		targetOffChainUndo := &c07Input{Prop: prop, First: 2, Kept: 5, Bundle: 10, Root: b(2), Arrival: arr4, A0: 14, HubStart: 6, Merged: 10,
+			Mode: "target", Start: 5, KSel: 12, Filter: "default", Pauses: []c07Pause{{After: 12, Push: 10}}, Shape: "corpus/target-cursor-off-chain"}
+		return []any{joinOnFork, finalAboveLib, finalCursorAhead, finalTarget, targetJoinOnFork8, targetJoinOnFork13, targetOffChainNew, targetOffChainUndo}
 	}
 }
 
